@@ -15,4 +15,7 @@ echo "-- demo without the change (expect exit 0):"
 /venv/bin/python _seed/demo.py > /tmp/seed_demo_$P.without 2>&1; echo "exit $?"
 git apply _seed/patch.diff
 echo "-- check $P ($TIER) against the changed tree:"
-cd /verif && PROPKA_REPO=$W ./check $P --tier $TIER --no-evidence 2>&1 | grep -v "^claim\|^$\|^replay\|KNOWN-FINDING" | cut -c1-230 | tail -5
+cd /verif && PROPKA_REPO=$W ./check $P --tier $TIER --no-evidence > /tmp/seed_check_$P.out 2>&1
+echo "VIOLATION lines: $(grep -c '^VIOLATION' /tmp/seed_check_$P.out)   HARNESS-ERROR lines: $(grep -c 'HARNESS' /tmp/seed_check_$P.out)"
+grep '^VIOLATION' /tmp/seed_check_$P.out | cut -c1-230 | head -4
+grep -v "^claim\|^$\|^replay\|KNOWN-FINDING\|^VIOLATION" /tmp/seed_check_$P.out | cut -c1-230 | tail -3
